@@ -26,6 +26,7 @@ import (
 	"os/exec"
 	"os/signal"
 	"path/filepath"
+	"regexp"
 	"sort"
 	"strconv"
 	"strings"
@@ -456,9 +457,6 @@ func newWorker(id int, layouts []*layout) *worker {
 	must(os.MkdirAll(store, 0o755), "mkdir")
 	must(os.MkdirAll(tmp, 0o755), "mkdir")
 	lg := zerolog.Nop()
-	if os.Getenv("VERIF_C10_DEBUG") != "" {
-		fmt.Fprintf(os.Stderr, "worker %d: start %s\n", id, time.Now().Format("05.000"))
-	}
 	be, err := storage.NewLocalBackend(store, lg)
 	must(err, "storage.NewLocalBackend")
 	db, err := database.New(&database.Config{
@@ -470,9 +468,6 @@ func newWorker(id int, layouts []*layout) *worker {
 		LocalStorageRoot: be.GetBasePath(),
 	}, lg)
 	must(err, "database.New")
-	if os.Getenv("VERIF_C10_DEBUG") != "" {
-		fmt.Fprintf(os.Stderr, "worker %d: database.New done %s\n", id, time.Now().Format("05.000"))
-	}
 	w.arcdb = db
 	h := api.NewDeleteHandler(db, be, &config.DeleteConfig{Enabled: true, ConfirmationThreshold: 10000, MaxRowsPerDelete: 1000000}, nil, filepath.Join(tmp, "upload"), lg)
 	w.app = fiber.New(fiber.Config{DisableStartupMessage: true})
@@ -481,13 +476,7 @@ func newWorker(id int, layouts []*layout) *worker {
 	must(err, "oracle duckdb")
 	w.oracle.SetMaxOpenConns(1)
 	must(w.oracle.Ping(), "oracle ping")
-	if os.Getenv("VERIF_C10_DEBUG") != "" {
-		fmt.Fprintf(os.Stderr, "worker %d: oracle open %s\n", id, time.Now().Format("05.000"))
-	}
 	must(loadOracle(w.oracle, layouts), "oracle load")
-	if os.Getenv("VERIF_C10_DEBUG") != "" {
-		fmt.Fprintf(os.Stderr, "worker %d: oracle loaded %s\n", id, time.Now().Format("05.000"))
-	}
 	return w
 }
 
@@ -607,6 +596,8 @@ func (w *worker) readMeasurement(dbname string) ([]string, error) {
 	return out, rows.Err()
 }
 
+var volatile = regexp.MustCompile(`"execution_time_ms":[0-9.eE+-]+,?`)
+
 type deleteResp struct {
 	Success        bool     `json:"success"`
 	DeletedCount   int64    `json:"deleted_count"`
@@ -627,6 +618,7 @@ func (w *worker) post(dbname, where string, dry bool) (int, *deleteResp, string)
 	}
 	defer resp.Body.Close()
 	raw, _ := io.ReadAll(resp.Body)
+	raw = volatile.ReplaceAll(raw, nil) // wall-clock noise must not reach descriptions
 	var r deleteResp
 	if err := json.Unmarshal(raw, &r); err != nil {
 		return resp.StatusCode, nil, string(raw)
@@ -670,10 +662,7 @@ func multisetDiff(a, b []string) (onlyA, onlyB []string) {
 // truths asks the oracle DuckDB for the per-row value (T/F/N) of every predicate, many per query.
 func (w *worker) truths(L *layout, rows []*row, es []*expr) [][]byte {
 	out := make([][]byte, len(es))
-	chunk := 16
-	if n, err := strconv.Atoi(os.Getenv("VERIF_C10_CHUNK")); err == nil && n > 0 {
-		chunk = n
-	}
+	const chunk = 32
 	for lo := 0; lo < len(es); lo += chunk {
 		hi := min(lo+chunk, len(es))
 		var cols []string
@@ -724,36 +713,7 @@ func (w *worker) truths(L *layout, rows []*row, es []*expr) [][]byte {
 	return out
 }
 
-var ruAcc [5][3]float64 // phase -> user, sys, wall
-
-func ruNow() (float64, float64) {
-	var ru syscall.Rusage
-	syscall.Getrusage(syscall.RUSAGE_SELF, &ru)
-	return float64(ru.Utime.Sec) + float64(ru.Utime.Usec)/1e6, float64(ru.Stime.Sec) + float64(ru.Stime.Usec)/1e6
-}
-
-type ruLap struct {
-	u, s float64
-	t    time.Time
-}
-
-func (l *ruLap) lap(phase int) {
-	if os.Getenv("VERIF_C10_DEBUG") == "" {
-		return
-	}
-	u, s := ruNow()
-	n := time.Now()
-	if !l.t.IsZero() && phase >= 0 {
-		ruAcc[phase][0] += u - l.u
-		ruAcc[phase][1] += s - l.s
-		ruAcc[phase][2] += n.Sub(l.t).Seconds()
-	}
-	l.u, l.s, l.t = u, s, n
-}
-
 func (w *worker) judge(ds *dataset, e *expr, tv []byte) *outcome {
-	var rl ruLap
-	rl.lap(-1)
 	where := e.render()
 	o := &outcome{Kinds: map[string]string{}}
 	if tv == nil {
@@ -781,7 +741,6 @@ func (w *worker) judge(ds *dataset, e *expr, tv []byte) *outcome {
 
 	dbname := w.materialise(ds)
 	defer func() { os.RemoveAll(filepath.Join(w.storeDir(), dbname)) }()
-	rl.lap(0)
 
 	// dry run
 	st, dr, raw := w.post(dbname, where, true)
@@ -793,7 +752,6 @@ func (w *worker) judge(ds *dataset, e *expr, tv []byte) *outcome {
 			o.Kinds["dryrun-count"] = fmt.Sprintf("dry run reported deleted_count=%d, the predicate is true on %d rows", dr.DeletedCount, nT)
 		}
 	}
-	rl.lap(1)
 	unchanged := true
 	for file, b := range ds.Files {
 		cur, err := os.ReadFile(filepath.Join(w.storeDir(), dbname, fileRel[file]))
@@ -813,9 +771,7 @@ func (w *worker) judge(ds *dataset, e *expr, tv []byte) *outcome {
 	}
 
 	// confirmed delete
-	rl.lap(2)
 	st, del, raw := w.post(dbname, where, false)
-	rl.lap(3)
 	o.Status = st
 	failed := map[int]bool{}
 	whole := false // the request failed as a whole
@@ -846,7 +802,6 @@ func (w *worker) judge(ds *dataset, e *expr, tv []byte) *outcome {
 	}
 	// the measurement afterwards
 	after, err := w.readMeasurement(dbname)
-	rl.lap(4)
 	if err != nil {
 		o.Kinds["unreadable-after"] = "measurement unreadable after delete: " + err.Error()
 		return o
@@ -977,7 +932,7 @@ func childMain(run *ev.Run, spec string, layouts []*layout) {
 		enc.Encode(result{i, o})
 	}
 	out.Flush()
-	dbg(fmt.Sprintf("cases done; [user sys wall] prep=%.2f dry=%.2f cmp=%.2f delete=%.2f read=%.2f", ruAcc[0], ruAcc[1], ruAcc[2], ruAcc[3], ruAcc[4]))
+	dbg("cases done")
 	w.arcdb.Close()
 	w.oracle.Close()
 	os.Exit(0)
@@ -1255,7 +1210,7 @@ func main() {
 		rows := pick(ev.Minimize(idx, failsOn))
 		o := w0.judge(w0.makeDataset(L, rows), c.e, nil)
 		o2 := w0.judge(w0.makeDataset(L, rows), c.e, nil)
-		if _, ok := o.Kinds[c.kind]; !ok || o.Kinds[c.kind] != o2.Kinds[c.kind] {
+		if _, ok := o.Kinds[c.kind]; !ok || o.Kinds[c.kind] != o2.Kinds[c.kind] || o.Truth != o2.Truth || o.DryCount != o2.DryCount || o.DelCount != o2.DelCount {
 			cleanup()
 			ev.Nondeterminism("minimal case for " + s + " did not reproduce identically")
 		}
